@@ -492,7 +492,9 @@ def _handle_pth_file(path: Path) -> list[_SP]:
         if _re_import_line.match(line):
             editable_module = path.parent / f"{line[len('import') :].lstrip()}.py"
             with suppress(UnhandledEditableModuleError):
-                return _handle_editable_module(editable_module)
+                # The other lines of the file count too: keep the directories found so far, and go on.
+                directories.extend(_handle_editable_module(editable_module))
+                continue
         if line and not line.startswith("#") and os.path.exists(line):  # noqa: PTH110
             directories.append(_SP(Path(line)))
     return directories
